@@ -7,14 +7,17 @@ cd "$WT" || exit 2
 git checkout -q -- . ; rm -rf ipp/tests
 CMD=$(python3 -c "import json,sys;print(json.load(open('$D/meta.json')).get('demo_cmd','cargo test -p ipp --offline --test demo'))")
 # normalise: the demo command is run from the worktree root with the demo already in place
-CMD=$(echo "$CMD" | sed -E 's#^.*&& *(cargo test)#\1#')
+CMD=$(echo "$CMD" | sed -E 's#^.*&& *(cargo test)#\1#' | sed -E 's/ +#.*$//; s/ +\(.*$//')
 git apply "$D/patch.diff" || { echo "$D: PATCH-DOES-NOT-APPLY"; exit 1; }
 b=0; t=0; df=0; dp=0
 cargo build --workspace --offline >/tmp/confirm.$$.log 2>&1 && b=1
 cargo test --workspace --offline >>/tmp/confirm.$$.log 2>&1 && t=1
 mkdir -p ipp/tests; cp "$D"/demo.rs ipp/tests/demo.rs 2>/dev/null
+NEEDS_SERDE_JSON=$(grep -c "cargo add" "$D/meta.json")
+[ "$NEEDS_SERDE_JSON" -gt 0 ] && cargo add --offline --dev -p ipp serde_json@1 >>/tmp/confirm.$$.log 2>&1
 ( eval "$CMD" ) >>/tmp/confirm.$$.log 2>&1 || df=1
-git checkout -q -- .
+git checkout -q -- ipp/src util/src
+cargo build --workspace --offline >>/tmp/confirm.$$.log 2>&1
 ( eval "$CMD" ) >>/tmp/confirm.$$.log 2>&1 && dp=1
 rm -rf ipp/tests; git checkout -q -- .
 echo "$D: builds=$b repo_tests_pass=$t demo_fails_with_patch=$df demo_passes_without=$dp cmd=[$CMD]"
